@@ -105,8 +105,9 @@ class FitResult(HoloPyObject):
             self._kwargs_keys.append(key)
 
     def forward(self, pars):
-        if hasattr(self.data, 'original_dims'):
-            # dealing with subset data
+        if 'flat' in self.data.dims and hasattr(self.data, 'original_dims'):
+            # dealing with subset data (an image has its own axes, whatever
+            # record of another image's axes came along in its metadata)
             original_dims = self.data.original_dims
             x = original_dims['x']
             y = original_dims['y']
